@@ -65,38 +65,67 @@ def resolveDots : List Str → List Str → List Str
 
 def dropLast' {α : Type} (l : List α) : List α := l.dropLast
 
-/-- `urljoin(base, ref)`; `none` = outside the modelled grammar -/
+def isSchemeChar (c : Char) : Bool :=
+  let n := c.toNat
+  (97 ≤ n && n ≤ 122) || (65 ≤ n && n ≤ 90) || (48 ≤ n && n ≤ 57) || c == '+' || c == '-' || c == '.'
+
+def lowerAscii (c : Char) : Char := if 65 ≤ c.toNat && c.toNat ≤ 90 then Char.ofNat (c.toNat + 32) else c
+
+/-- `urlsplit`'s scheme detection: the text before the FIRST `:` is a scheme iff it is non-empty, starts
+    with an ASCII letter and consists of scheme characters; the scheme is lower-cased -/
+def splitScheme (s : Str) : Option (Str × Str) :=
+  match cut ':' s with
+  | (pre, some rest) =>
+      match pre with
+      | c :: _ =>
+          let n := c.toNat
+          if ((97 ≤ n && n ≤ 122) || (65 ≤ n && n ≤ 90)) && pre.all isSchemeChar then some (pre.map lowerAscii, rest)
+          else none
+      | [] => none
+  | (_, none) => none
+
+/-- the reference without scheme, resolved against the base (`netloc`, path merge, dot segments) -/
+def joinRest (b : Url) (r : Str) : Str :=
+  if startsWith ['/', '/'] r then
+    -- network-path reference: its own netloc, path and query, the base's scheme
+    let (np, q) := cut '?' (r.drop 2)
+    let (nl, p) := cut '/' np
+    ({ scheme := b.scheme, netloc := nl, path := match p with | some x => '/' :: x | none => [], query := q } : Url).render
+  else
+    let (path, query) := cut '?' r
+    if path.isEmpty then
+      ({ b with query := match query with | some q => if q.isEmpty then b.query else some q | none => b.query }).render
+    else
+      let baseParts := splitOnChar '/' b.path
+      let baseParts := if baseParts.getLast? != some [] then baseParts.dropLast else baseParts
+      let segments :=
+        if startsWith ['/'] path then splitOnChar '/' path
+        else
+          let segs := baseParts ++ splitOnChar '/' path
+          match segs with
+          | [] => []
+          | [a] => [a]
+          | a :: rest => a :: ((rest.dropLast).filter (fun s => !s.isEmpty)) ++ [rest.getLast?.getD []]
+      let resolved := resolveDots segments []
+      let resolved := if segments.getLast? == some ['.'] || segments.getLast? == some ['.', '.'] then resolved ++ [[]] else resolved
+      let p := joinWith '/' resolved
+      ({ b with path := if p.isEmpty then ['/'] else p, query := query }).render
+
+/-- `urljoin(base, ref)`; `none` = outside the modelled grammar (base not `http(s)://…`, or `#` `;`
+    `\` blanks / controls / non-ASCII in the reference).  A reference whose text before the first `:`
+    looks like a scheme (`x:y/z`, `host:8080/p`, `HTTP://h/p`) HAS that scheme for `urljoin`: a scheme other
+    than the base's returns the reference unchanged; the base's own scheme (`http:rel`, `HTTP://H/p`) is
+    dropped, the rest is resolved like a scheme-less reference and the result carries the lower-case scheme.
+    A `:` after the first `/` (`a/b:c`) is an ordinary path character. -/
 def urljoin (base : Str) (ref : Str) : Option Str :=
   if ref.isEmpty then some base
   else match parseAbs base with
   | none => none
   | some b =>
     if !okChars ref then none
-    else if startsWith ['h', 't', 't', 'p', ':', '/', '/'] ref || startsWith ['h', 't', 't', 'p', 's', ':', '/', '/'] ref then
-      (parseAbs ref).map fun _ => ref
-    else if startsWith ['/', '/'] ref then
-      (parseAbs (b.scheme ++ ':' :: ref)).map fun u => u.render
-    else
-      let (path, query) := cut '?' ref
-      -- a scheme-looking prefix (`x:`) is outside the grammar
-      if (cut '/' path).1.contains ':' then none
-      else if path.isEmpty then
-        some ({ b with query := match query with | some q => if q.isEmpty then b.query else some q | none => b.query }).render
-      else
-        let baseParts := splitOnChar '/' b.path
-        let baseParts := if baseParts.getLast? != some [] then baseParts.dropLast else baseParts
-        let segments :=
-          if startsWith ['/'] path then splitOnChar '/' path
-          else
-            let segs := baseParts ++ splitOnChar '/' path
-            match segs with
-            | [] => []
-            | [a] => [a]
-            | a :: rest => a :: ((rest.dropLast).filter (fun s => !s.isEmpty)) ++ [rest.getLast?.getD []]
-        let resolved := resolveDots segments []
-        let resolved := if segments.getLast? == some ['.'] || segments.getLast? == some ['.', '.'] then resolved ++ [[]] else resolved
-        let p := joinWith '/' resolved
-        some ({ b with path := if p.isEmpty then ['/'] else p, query := query }).render
+    else match splitScheme ref with
+      | some (sch, rest) => if sch == b.scheme then some (joinRest b rest) else some ref
+      | none => some (joinRest b ref)
 
 /-- `utils.absolute_url` -/
 def absoluteUrl (deviceUrl url : Str) : Option Str :=
